@@ -673,8 +673,9 @@ def build(spec, rank):
 
 # --------------------------------------------------------------------------- faults (C10)
 
-FAULT_KINDS = ["drop_send", "dup_send", "retag_send", "redirect_send", "self_send",
-               "drop_recv", "dup_recv", "retag_recv", "redirect_recv", "self_recv", "cycle"]
+FAULT_KINDS = ["drop_send", "dup_send", "retag_send", "redirect_send", "self_send", "send_to_nowhere",
+               "drop_recv", "dup_recv", "retag_recv", "redirect_recv", "self_recv", "recv_from_nowhere",
+               "cycle"]
 
 
 def _add_output(rk, idx):
@@ -686,11 +687,11 @@ def fault_sites(spec):
     sends, recvs = comm_ops(spec)
     out = []
     for k in range(len(sends)):
-        for kind in ("drop_send", "dup_send", "retag_send", "redirect_send", "self_send"):
+        for kind in ("drop_send", "dup_send", "retag_send", "redirect_send", "self_send", "send_to_nowhere"):
             out.append((kind, k))
         out.append(("cycle", k))
     for k in range(len(recvs)):
-        for kind in ("drop_recv", "dup_recv", "retag_recv", "redirect_recv", "self_recv"):
+        for kind in ("drop_recv", "dup_recv", "retag_recv", "redirect_recv", "self_recv", "recv_from_nowhere"):
             out.append((kind, k))
     return out
 
@@ -700,7 +701,7 @@ def apply_fault(spec, kind, site, variant=0):
     sp = copy.deepcopy(spec)
     sends, recvs = comm_ops(sp)
     nr = sp["nranks"]
-    if kind.endswith("_send") or kind == "cycle":
+    if kind.endswith("_send") or kind in ("cycle", "send_to_nowhere"):
         if site >= len(sends):
             return None
         s = sends[site]
@@ -730,6 +731,8 @@ def apply_fault(spec, kind, site, variant=0):
         nd["dst"] = others[variant % len(others)] if others else nr + 1   # nonexistent rank
     elif kind == "self_send":
         nd["dst"] = s["rank"]
+    elif kind == "send_to_nowhere":
+        nd["dst"] = nr + 1
     elif kind == "drop_recv":
         nd.clear()
         nd.update({"op": "input", "name": f"dropped{site}"})
@@ -745,6 +748,8 @@ def apply_fault(spec, kind, site, variant=0):
         nd["src"] = others[variant % len(others)] if others else nr + 1
     elif kind == "self_recv":
         nd["src"] = v["rank"]
+    elif kind == "recv_from_nowhere":
+        nd["src"] = nr + 1
     elif kind == "cycle":
         # make the payload of send `site` depend on a receive (same rank) that itself
         # depends — across ranks — on this very send
